@@ -55,15 +55,12 @@ Theorem is_satisfied_sound : forall d native c,
 Proof. exact is_satisfied_implies_spec. Qed.
 Print Assumptions is_satisfied_sound.
 
-(* the converse (is_satisfied accepts every circuit meeting the specification) is FALSE of the
-   faithful model of assert_connectivity: two-qubit measurements are required to be on an edge *)
-Theorem is_satisfied_complete_refuted :
-  exists d native c, spec_satisfied d native c = true /\ is_satisfied d native c = false.
-Proof.
-  exists (mkD [0;1;2] [(0,1);(1,2)]), (fun _ => true), (mkC [0;1;2] [mkG KU 1 [0;1]; mkG KM 2 [0;2]]).
-  exact is_satisfied_meas2_refuted_witness.
-Qed.
-Print Assumptions is_satisfied_complete_refuted.
+(* and conversely: is_satisfied accepts every circuit meeting the specification (measurements
+   need no connectivity; holds since assert_connectivity skips gates.M) *)
+Theorem is_satisfied_complete : forall d native c,
+  spec_satisfied d native c = true -> is_satisfied d native c = true.
+Proof. exact spec_implies_is_satisfied. Qed.
+Print Assumptions is_satisfied_complete.
 
 (* composition: (Preprocessing | placer)* ; router ; Unroller*  with every pass meeting its
    contract.  [ieq] of the interpretation is the equality the unroller table is correct for
@@ -76,9 +73,13 @@ Theorem pipeline_ok : forall n (I : interp n) d native c0 pre c3 l2p post c lay,
   lay = Some l2p /\
   is_perm (length (dnodes d)) l2p = true /\
   assert_placement d c = true /\ spec_connectivity d c = true /\
-  (post <> [] -> spec_satisfied d native c = true) /\
+  (post <> [] -> is_satisfied d native c = true) /\
   forall x, ieq n I (irun I (cgates c) x) (ipact n I (at_ l2p) (irun I (cgates c0) x)).
-Proof. exact pipeline_sem. Qed.
+Proof.
+  intros n I d native c0 pre c3 l2p post c lay Hp Hu R S1 S2.
+  destruct (pipeline_sem n I d native c0 pre c3 l2p post c lay Hp Hu R S1 S2) as (A & B & C & D & E & F).
+  repeat split; auto. intro N. apply spec_implies_is_satisfied. auto.
+Qed.
 Print Assumptions pipeline_ok.
 
 (* the router premise of pipeline_ok is exactly what C09 proves of every guarded routing run *)
